@@ -102,9 +102,11 @@ PROPS["C02"] = {
              "other than 0644/0755 or fractional mtime; distinct by case hash."),
     "assumptions": ["the root directory's own mode/time is not archived", "link mtimes are exempt (property text)", "with ignore on, directories the reference excludes are compared leniently (C03 judges them)"],
     "quick": [rapid("root", "^TestPropRoundTrip$", 1500, shards=3), rapid("unpriv", "^TestPropRoundTrip$", 1200, shards=1, uid=65534),
-              rapid("umask077", "^TestPropRoundTrip$", 400, shards=1, env={"VERIF_UMASK": "077"})],
+              rapid("umask077", "^TestPropRoundTrip$", 400, shards=1, env={"VERIF_UMASK": "077"}),
+              rapid("manyfiles-nofile64", "^TestPropManyFiles$", 12, shards=1, env={"VERIF_NOFILE": "64"})],
     "thorough": [rapid("root", "^TestPropRoundTrip$", 12000, shards=10), rapid("unpriv", "^TestPropRoundTrip$", 12000, shards=4, uid=65534),
-                 rapid("umask077", "^TestPropRoundTrip$", 4000, shards=2, env={"VERIF_UMASK": "077"})],
+                 rapid("umask077", "^TestPropRoundTrip$", 4000, shards=2, env={"VERIF_UMASK": "077"}),
+                 rapid("manyfiles-nofile64", "^TestPropManyFiles$", 150, shards=1, env={"VERIF_NOFILE": "64"})],
 }
 
 PROPS["C15"] = {
